@@ -18,7 +18,7 @@ def run(ctx):
         short = [l for l in lists if len(l[1]) <= 20000]
         longs = [l for l in lists if len(l[1]) > 20000]
         rnd.shuffle(longs)
-        directed = [l for l in longs if l[0].startswith(("long-rebuild", "long-distinct-freq")) or l[0] == "long-uniform-all-codes"]
+        directed = [l for l in longs if l[0].startswith(("long-rebuild", "long-distinct-freq", "long-skew")) or l[0] == "long-uniform-all-codes"]
         lists = short + directed + [l for l in longs if l not in directed][:2]
     else:
         lists = gen.gen_cmd_lists(rnd, False)
@@ -26,7 +26,7 @@ def run(ctx):
     return rtcheck.roundtrip(ctx, PID, cases,
         "command lists engineered for frequency ties (round-robin over k symbols, alternating pairs, long runs, single symbol, "
         "geometric/Fibonacci distributions), all 64 upper-offset codes, copy lengths 3 and 60, offsets 0 and 4095, lists of more "
-        "than 70000 symbols (several tree rebuilds), never-used codes first used right after the first / second rebuild, uniform use of all 314 codes across rebuilds, symbol s used s+1 times (more than 314 distinct node frequencies alive at once; in bursts and interleaved), encoded by the extracted LZHUF transliteration; the C decoder's output must equal "
+        "than 70000 symbols (several tree rebuilds), never-used codes first used right after the first / second rebuild, uniform use of all 314 codes across rebuilds, Fibonacci-like counts followed by unused symbols (codes of 17 and more bits), symbol s used s+1 times (more than 314 distinct node frequencies alive at once; in bursts and interleaved), encoded by the extracted LZHUF transliteration; the C decoder's output must equal "
         "the LZ77 expansion; model decoder compared. non-trivial = distinct case with output", model_limit=400000)
 
 
